@@ -401,6 +401,54 @@ func c13Run(c *fw.Ctx, kind string, pool []lexeme, seq []int, mode int) {
 	}
 }
 
+// c13ConfiguredClass: which state a tokenizer of the kind is configured to enter on a non-Latin character
+// (the dispatch table is configuration, read through the public getter; C17 decides that it answers
+// faithfully): Word, Symbol, Whitespace, or 0 for anything else
+func c13ConfiguredClass(kind string, ch rune) int {
+	t := c13New(kind)
+	g, ok := t.(interface {
+		GetCharacterState(rune) tokenizers.ITokenizerState
+	})
+	if !ok {
+		return 0
+	}
+	var st tokenizers.ITokenizerState
+	if pv := fw.Try(func() { st = g.GetCharacterState(ch) }); pv != nil || st == nil {
+		return 0
+	}
+	switch {
+	case st == tokenizers.ITokenizerState(t.WordState()):
+		return tokenizers.Word
+	case st == tokenizers.ITokenizerState(t.SymbolState()):
+		return tokenizers.Symbol
+	case st == tokenizers.ITokenizerState(t.WhitespaceState()):
+		return tokenizers.Whitespace
+	}
+	return 0
+}
+
+// c13Adjust: lexemes that start with a non-Latin character (U+0100 and above) get the class the tokenizer
+// is configured for - a single symbol character that is configured as a letter is an identifier, an
+// identifier whose first letter is configured as a symbol is dropped from the pool
+func c13Adjust(kind string, pool []lexeme) []lexeme {
+	out := []lexeme{}
+	for _, l := range pool {
+		r := []rune(l.text)
+		if len(r) == 0 || r[0] < 0x100 || (l.typ != tokenizers.Symbol && l.typ != tokenizers.Word) {
+			out = append(out, l)
+			continue
+		}
+		cls := c13ConfiguredClass(kind, r[0])
+		switch {
+		case cls == l.typ:
+			out = append(out, l)
+		case cls == tokenizers.Word && l.typ == tokenizers.Symbol && len(r) == 1:
+			out = append(out, lexeme{l.text, tokenizers.Word})
+		}
+	}
+	return out
+}
+
 // class of a one-character lexeme by the documented dispatch tables of the two tokenizers (0 = the
 // character starts a number, a string or a comment, or cannot be dispatched: not used on its own)
 func c13StartClass(kind string, ch rune) int {
@@ -415,12 +463,12 @@ func c13StartClass(kind string, ch rune) int {
 	case ch >= '0' && ch <= '9', ch == '-', ch == '.', ch == '"', ch == '\'':
 		return 0
 	}
+	if ch >= 0x100 {
+		return c13ConfiguredClass(kind, ch) // how non-Latin characters are dispatched is configuration
+	}
 	if kind == "generic" {
 		if ch == '#' {
 			return 0
-		}
-		if ch >= 0x100 {
-			return tokenizers.Word
 		}
 		return tokenizers.Symbol
 	}
@@ -471,7 +519,7 @@ func init() {
 			sp := []fw.Space{}
 			for _, kind := range []string{"generic", "expression", "generic+symrange", "expression+cyrillic", "generic+latesymbols", "expression+keywords-edited", "generic+custom", "expression+custom"} {
 				kind := kind
-				pool := c13Pool(kind)
+				pool := c13Adjust(kind, c13Pool(kind))
 				for mode := 0; mode < 2; mode++ {
 					mode := mode
 					sp = append(sp, fw.Space{Name: fmt.Sprintf("%s-mode%d", kind, mode), N: countStrings(len(pool), maxLen),
